@@ -9,7 +9,7 @@ import z3
 
 from . import sym
 from .sym import SV, Val, lift, as_bool, B
-from .engine import (Unsupported, PyRaise, ExcVal, Obj, FuncRef, BoundMethod, ClassRef, SuperRef, NativeMethod,
+from .engine import (Unsupported, PyRaise, ExcVal, Obj, FuncRef, BoundMethod, ClassRef, SuperRef, NativeMethod, SymSeq,
                      SymDict, Entry, StrCount, SplitResult, ABSENT, _Gen, _DictView, Infeasible)
 
 STR_METHODS = {"startswith", "endswith", "split", "rsplit", "strip", "rstrip", "lstrip", "lower", "upper", "replace",
@@ -37,6 +37,13 @@ DIGITS_RE = z3.Plus(z3.Range("0", "9"))
 _ws = z3.Union(*[z3.Re(c) for c in WS_ASCII])
 INT_MAYBE_RE = z3.Concat(z3.Star(_ws), z3.Option(z3.Union(z3.Re("+"), z3.Re("-"))),
                          z3.Plus(z3.Union(z3.Range("0", "9"), z3.Re("_"))), z3.Star(_ws))
+
+
+class Spread(object):
+    """marker element of a concrete list: the elements of a symbolic sequence, spliced in"""
+
+    def __init__(self, t):
+        self.t = t
 
 
 class SymMatch(object):
@@ -156,6 +163,18 @@ class Models(object):
                                                            sym.ref_len(r) >= 0)))
         else:
             self.E.assume(z3.Implies(Val.is_VRef(t), z3.And(sym.ref_kind(r) >= 1, sym.ref_kind(r) <= 5, sym.ref_len(r) >= 0)))
+        shape = getattr(d, "shape", None)
+        if isinstance(shape, dict):
+            shape = shape.get(k) if isinstance(k, str) else None      # per-key shapes (other keys unconstrained)
+        if shape:
+            # data-structure invariant of nested manifests (re-established by every add): what this level holds
+            if shape[0] == "dict":
+                self.E.assume(sym.is_dict(e.value))
+                child = self.E.ref_as_dict(e.value, "%s[%s]" % (d.name, _kname(k)))
+                child.shape = shape[1] if len(shape) > 1 else None
+                child.json = getattr(d, "json", True)
+            elif shape[0] == "list":
+                self.E.assume(sym.is_kind(e.value, sym.K_LIST))
         d.entries.append(e)
         return e
 
@@ -165,8 +184,11 @@ class Models(object):
     def sd_set(self, d, k, v):
         e = self.sd_lookup(d, k)
         if e is None:
-            d.entries.append(Entry(sym.concrete(k), True, v))
+            e = Entry(sym.concrete(k), True, v)
+            d.entries.append(e)
+            self.E.path.effects.append(("dict_write", d, e, False, None, v))
         else:
+            self.E.path.effects.append(("dict_write", d, e, e.present, e.value, v))
             e.present = True
             e.value = v
 
@@ -338,6 +360,8 @@ class Models(object):
                 if E.decide(sym.is_kind(o, sym.K_OBJ)):
                     raise Unsupported("attribute of a symbolic object reference")
                 if name in LIST_METHODS and E.decide(sym.is_kind(o, sym.K_LIST)):
+                    if name in ("append", "extend"):
+                        return NativeMethod(E.ref_as_seq(o), name)
                     raise Unsupported("method of a symbolic list")
                 if name in SET_METHODS and E.decide(sym.is_kind(o, sym.K_SET)):
                     raise Unsupported("method of a symbolic set")
@@ -1147,6 +1171,8 @@ class Models(object):
             return self.dict_method(recv, name, args, kwargs)
         if isinstance(recv, list):
             return self.list_method(recv, name, args, kwargs)
+        if isinstance(recv, SymSeq):
+            return self.seq_method(recv, name, args, kwargs)
         if isinstance(recv, (set, frozenset)):
             return self.set_method(recv, name, args, kwargs)
         if isinstance(recv, re.Pattern):
@@ -1182,6 +1208,9 @@ class Models(object):
         names = list(m.pattern.groupindex.keys())
         info = sym.rx_groups(m.pattern)
         m.groups = {}
+        if not hasattr(m, "tag"):
+            E.path.counter += 1
+            m.tag = "m%d" % E.path.counter      # one set of ghost constants per match
         for n in names:
             gre, opt = info[n]
             v = SV(z3.Const("group.%s.%s" % (n, getattr(m, "tag", "m")), sym.Val))
@@ -1260,10 +1289,15 @@ class Models(object):
 
     def list_method(self, l, name, args, kwargs):
         E = self.E
+        if name in ("append", "extend", "sort", "insert", "pop", "reverse"):
+            E.path.effects.append(("list_write", l, name))
         if name == "append":
             l.append(args[0])
             return None
         if name == "extend":
+            if isinstance(args[0], SymSeq):
+                l.append(Spread(args[0].t))       # contents of a symbolic sequence spliced into a concrete list
+                return None
             l.extend(E.iterate(args[0]))
             return None
         if name == "sort":
@@ -1286,6 +1320,38 @@ class Models(object):
             l.reverse()
             return None
         raise Unsupported("list.%s" % name)
+
+    def val_term(self, v):
+        """Val term of any interpreter value (heap objects by their allocated reference)"""
+        v = sym.concrete(v)
+        if sym.liftable(v):
+            return lift(v)
+        return self.E.ref_of(v)
+
+    def seq_of(self, x):
+        """z3 sequence term of a list-like value"""
+        E = self.E
+        if isinstance(x, SymSeq):
+            return x.t
+        if isinstance(x, (list, tuple)):
+            if not x:
+                return z3.Empty(z3.SeqSort(Val))
+            us = [i.t if isinstance(i, Spread) else z3.Unit(self.val_term(i)) for i in x]
+            return z3.Concat(*us) if len(us) > 1 else us[0]
+        if isinstance(x, SV) and (E.decide(sym.is_kind(x, sym.K_LIST)) or E.decide(sym.is_kind(x, sym.K_TUPLE))):
+            return E.ref_as_seq(x).t
+        raise Unsupported("sequence view of %s" % type(x).__name__)
+
+    def seq_method(self, q, name, args, kwargs):
+        E = self.E
+        E.path.effects.append(("list_write", q, name))
+        if name == "append":
+            q.t = z3.Concat(q.t, z3.Unit(self.val_term(args[0])))
+            return None
+        if name == "extend":
+            q.t = z3.Concat(q.t, self.seq_of(args[0]))
+            return None
+        raise Unsupported("list.%s on a symbolic list" % name)
 
     def set_method(self, s, name, args, kwargs):
         E = self.E
@@ -1349,7 +1415,7 @@ class Models(object):
         t[dir] = self.b_dir
         t[len] = self.b_len
         t[sorted] = lambda a, k: self.sorted_(self.E.iterate(a[0]), k.get("key"), k.get("reverse", False))
-        t[list] = lambda a, k: list(self.E.iterate(a[0])) if a else []
+        t[list] = self.b_list
         t[tuple] = lambda a, k: tuple(self.E.iterate(a[0])) if a else ()
         t[set] = lambda a, k: self.make_set(self.E.iterate(a[0])) if a else set()
         t[frozenset] = lambda a, k: frozenset(self.make_set(self.E.iterate(a[0]))) if a else frozenset()
@@ -1412,6 +1478,18 @@ class Models(object):
         raise Unsupported("call of %r" % (f,))
 
     call_hooks = {}
+
+    def b_list(self, a, k):
+        if not a:
+            return []
+        x = a[0]
+        if isinstance(x, SV) and not isinstance(self.as_dict(x), SymDict) and \
+                (self.E.decide(sym.is_kind(x, sym.K_LIST)) or self.E.decide(sym.is_kind(x, sym.K_TUPLE))):
+            q = self.E.ref_as_seq(x)
+            return SymSeq(q.name + ".copy", q.t)
+        if isinstance(x, SymSeq):
+            return SymSeq(x.name + ".copy", x.t)
+        return list(self.E.iterate(x))
 
     def b_isinstance(self, a, k):
         v, T = a
